@@ -116,6 +116,7 @@ def known_open(known, prop, key):
 CRASH_PATTERNS = [
     # an assertion in an ASan build ends as "AddressSanitizer: ABRT": name the assertion, not the signal
     (re.compile(r"Assertion `(.*)' failed"), "assert"),
+    (re.compile(r"ERROR: \S+: (per-thread storage out of memory)"), "die"),
     (re.compile(r"ERROR: AddressSanitizer: ([a-zA-Z0-9_-]+)"), "asan"),
     (re.compile(r"runtime error: (.*)"), "ubsan"),
     (re.compile(r"terminate called after throwing an instance of '([^']+)'"), "exception"),
